@@ -5,7 +5,7 @@ schedule whose steps are solver-enumerated selectors: data from client / server 
 injected messages towards either side, client close, server close, delivery of the ConnectionClosed
 that server.py sends back after a full CloseConnection command, and — as the first selector — how the
 server connection comes up (already open / opened on start / open fails).  The "addon" in the message hook
-either passes or makes a length-changing edit (selector asked inside the hook callback).
+either passes or makes a length-changing edit (part of the step selector).
 
 Oracle = a 20-line reference relay written from the property sentence, compared after EVERY step (so each
 schedule also covers all its prefixes):
@@ -51,7 +51,7 @@ _P = {
 }
 
 
-def h_relay(X, proto, K):
+def h_relay(X, proto, K, reduced=False):
     P = _P[proto]
     ctx = sansio.make_context(_OPTS, transport=proto)
     ctx.server = connection.Server(address=("203.0.113.5", 4433), transport_protocol=proto)
@@ -71,13 +71,14 @@ def h_relay(X, proto, K):
     def on_hook(hook):
         if hook.name == P["message"]:
             m = hook.args()[0].messages[-1]
-            if X.choose("hook_edits", 2):
+            if plan["edit"]:
                 m.content = b"<edited:" + m.content + b">"
                 X.reach("edited")
             edits.append(m.content)
         return True
 
     d.on_hook = on_hook
+    plan = {"edit": False}
 
     # ---- reference relay
     ref_msgs = []  # (from_client, final content)
@@ -125,13 +126,41 @@ def h_relay(X, proto, K):
         X.check(n_hook(P["start"]) == 1, f"C29/{proto}/start-hook", f"{n_hook(P['start'])} start hooks")
     compare("after start")
 
+    # the variants that differ from the main configuration only in how the layer starts get one step less
+    if not (startup == "open-ok" and not ignore):
+        K = K - 1
     for step in range(K):
-        kinds = ["client-data", "server-data", "inject-to-server", "inject-to-client", "client-close", "server-close", "echo-close"]
-        s = X.choose("step", kinds)
+        # full close commands make server.py deliver a ConnectionClosed for that connection later
+        for c in d.trace[seen_cmds:]:
+            if isinstance(c, commands.CloseConnection) and not getattr(c, "half_close", False) and c.connection not in closed_fed and c.connection not in echo:
+                echo.append(c.connection)
+        seen_cmds = len(d.trace)
+        # menu of enabled steps (deterministic given the earlier choices); "+edit" = the addon edits this message
+        menu = []
+        for kind, src in (("client-data", client), ("server-data", server)):
+            if src.state & ConnectionState.CAN_READ:
+                menu.append(kind)
+                if not ref_ended and not ignore and not reduced:
+                    menu.append(kind + "+edit")
+        if flow is not None and not reduced:
+            for kind in ("inject-to-server", "inject-to-client"):
+                menu.append(kind)
+                if not ref_ended:
+                    menu.append(kind + "+edit")
+        for kind, src in (("client-close", client), ("server-close", server)):
+            if src.state & ConnectionState.CAN_READ:
+                menu.append(kind)
+        if echo:
+            menu.append("echo-close")
+        if not menu:
+            X.reach("nothing-enabled")
+            break
+        s = X.choose("step", menu)
+        plan["edit"] = s.endswith("+edit")
+        s = s.replace("+edit", "")
         n_cmds_before = len(d.trace)
         if s in ("client-data", "server-data"):
             src = client if s == "client-data" else server
-            X.assume(bool(src.state & ConnectionState.CAN_READ))
             payload = b"[%s%d]" % (b"c" if src is client else b"s", marker)
             marker += 1
             n_ed = len(edits)
@@ -143,7 +172,6 @@ def h_relay(X, proto, K):
                 if closed_fed:
                     X.reach("relayed-after-half-close")
         elif s in ("inject-to-server", "inject-to-client"):
-            X.assume(flow is not None)  # injection needs a flow object
             fc = s == "inject-to-server"
             payload = b"[inj%d]" % marker
             marker += 1
@@ -157,7 +185,6 @@ def h_relay(X, proto, K):
                 X.reach("injected-after-end")
         elif s in ("client-close", "server-close"):
             src, other = (client, server) if s == "client-close" else (server, client)
-            X.assume(bool(src.state & ConnectionState.CAN_READ))
             other_readable = bool(other.state & ConnectionState.CAN_READ)
             d.close(src)
             closed_fed.add(src)
@@ -173,29 +200,27 @@ def h_relay(X, proto, K):
                 ref_ended = True
                 X.reach("ended-by-close")
         else:  # echo-close
-            X.assume(bool(echo))
             conn = echo.pop(0)
             d.feed(events.ConnectionClosed(conn))
             X.reach("echo-close")
             X.check(len(d.trace) == n_cmds_before, f"C29/{proto}/commands-after-end", f"ConnectionClosed echo produced {d.trace[n_cmds_before:]}")
-        # full close commands make server.py deliver a ConnectionClosed for that connection later
-        for c in d.trace[max(seen_cmds, 0):]:
-            if isinstance(c, commands.CloseConnection) and not getattr(c, "half_close", False) and c.connection not in closed_fed and c.connection not in echo:
-                echo.append(c.connection)
-        seen_cmds = len(d.trace)
         compare(f"step {step} ({s})")
     X.reach("end")
 
 
 def obligations(tier):
-    kt, ku = (5, 5) if tier == "quick" else (7, 7)
-    alpha = "{client data, server data, inject->server, inject->client, client close, server close, ConnectionClosed echo}"
+    kt, ku, kd = (4, 5, 8) if tier == "quick" else (5, 6, 11)
+    alpha = "{client data, server data, inject->server, inject->client (each with hook policy pass / length-changing edit), client close, server close, ConnectionClosed echo}"
     must = ["end", "relayed", "injected", "edited", "ended-by-close", "open-failed", "injected-after-end", "echo-close"]
+    var = "x startup {already open, open ok, open fails} x ignore-mode (variants other than open-ok/flow get one step less)"
     return [
         Symx("tcp-relay-schedule", lambda X: h_relay(X, "tcp", kt),
-             bounds=f"every schedule of exactly {kt} steps (all prefixes judged) over {alpha} x startup {{already open, open ok, open fails}} x ignore-mode x per-message hook policy {{pass, edit}}",
+             bounds=f"every schedule of {kt} enabled steps (all prefixes judged) over {alpha} {var}",
              encoded=ENCODED[:3], must_reach=must + ["half-close", "relayed-after-half-close"], parallel_depth=3),
+        Symx("tcp-halfclose-deep", lambda X: h_relay(X, "tcp", kd, reduced=True),
+             bounds=f"every schedule of {kd} enabled steps over the reduced alphabet {{client data, server data, client close, server close, ConnectionClosed echo}} (hook passes) {var}",
+             encoded=ENCODED[:3], must_reach=["end", "relayed", "ended-by-close", "open-failed", "echo-close", "half-close", "relayed-after-half-close"], parallel_depth=3),
         Symx("udp-relay-schedule", lambda X: h_relay(X, "udp", ku),
-             bounds=f"every schedule of exactly {ku} steps (all prefixes judged) over {alpha} x startup x ignore-mode x per-message hook policy {{pass, edit}}",
+             bounds=f"every schedule of {ku} enabled steps (all prefixes judged) over {alpha} {var}",
              encoded=ENCODED[3:], must_reach=must, parallel_depth=3),
     ]
